@@ -244,7 +244,9 @@ def oracle_trace_every(args):
     spec = dict(args)
     spec.pop("every", None)
     base = dict(spec, every=1)
+    tmps = []
     tm1, model, _t = run_batch(base)
+    tmps.append(_t)
     ref = np.asarray(tm1.outcomes, dtype=np.float64)
     w1 = sorted(float(t.weight) for t in tm1.traces)
     problems = []
@@ -256,14 +258,19 @@ def oracle_trace_every(args):
     for cut in cuts:
         b1 = dict(base) if cut is None else dict(base, max_steps=cut)
         r1, _m, _t = run_batch(b1)
+        tmps.append(_t)
         o1 = np.asarray(r1.outcomes, dtype=np.float64)
         for k in args.get("strides", [3, 7]):
             rk, _m, _t = run_batch(dict(b1, every=k))
+            tmps.append(_t)
             ok_ = np.asarray(rk.outcomes, dtype=np.float64)
             if ok_.shape != o1.shape or not allclose(ok_, o1, 1.0, rtol=1e-12):
                 problems.append("max_steps=%r: outcomes with trace_every=%d are %r, with trace_every=1 %r" % (cut, k, ok_.tolist(), o1.tolist()))
             if sorted(float(t.weight) for t in rk.traces) != sorted(float(t.weight) for t in r1.traces):
                 problems.append("max_steps=%r: the weights of the traces depend on trace_every" % (cut,))
+    for t_ in tmps:                     # (the YAML pages of these batches have been read by now)
+        if t_:
+            shutil.rmtree(t_, ignore_errors=True)
     return not problems, {"cuts": cuts, "reference": ref, "weights": w1[:6], "problems": problems[:3]}, {"problems": []}, \
         "; ".join(problems[:2]) or "ok"
 
